@@ -122,6 +122,10 @@ func (b *Build) Run(o Opt) Result {
 	cmd.WaitDelay = 2 * time.Second
 	t0 := time.Now()
 	err := cmd.Run()
+	if cmd.Process != nil {
+		// children that outlive the run (a gated or faulted git shim still blocked somewhere) go with it
+		syscall.Kill(-cmd.Process.Pid, syscall.SIGKILL)
+	}
 	res := Result{Stdout: so.Bytes(), Stderr: se.Bytes(), Wall: time.Since(t0)}
 	if ctx.Err() == context.DeadlineExceeded {
 		res.TimedOut = true
